@@ -50,6 +50,22 @@ func descriptorProtoSource() string {
 	return descriptorProtoText
 }
 
+// dropOverride removes the descriptor.proto override together with the uses
+// of the option that only the custom override declares.
+func (w *CompileWL) dropOverride() {
+	w.DescriptorOverride = ""
+	for i := range w.Files {
+		lines := strings.SplitAfter(w.Files[i].Text, "\n")
+		out := lines[:0]
+		for _, l := range lines {
+			if !strings.HasPrefix(l, "option team = ") {
+				out = append(out, l)
+			}
+		}
+		w.Files[i].Text = strings.Join(out, "")
+	}
+}
+
 func (w *CompileWL) names() []string {
 	out := make([]string, len(w.Files))
 	for i, f := range w.Files {
@@ -68,8 +84,23 @@ func (w *CompileWL) sources() map[string]string {
 		m["google/protobuf/descriptor.proto"] = descriptorProtoSource()
 	case "broken":
 		m["google/protobuf/descriptor.proto"] = descriptorProtoSource() + "\nmessage {\n"
+	case "custom":
+		m["google/protobuf/descriptor.proto"] = customDescriptorProtoSource()
 	}
 	return m
+}
+
+// customDescriptorProtoSource is descriptor.proto with one more file option,
+// which files of the workload then use without importing descriptor.proto: they
+// compile only if the resolver's descriptor.proto is really the one in force.
+func customDescriptorProtoSource() string {
+	src := descriptorProtoSource()
+	const anchor = "message FileOptions {"
+	i := strings.Index(src, anchor)
+	if i < 0 {
+		panic(sim.HarnessFault{Msg: "descriptor.proto has no FileOptions message"})
+	}
+	return src[:i+len(anchor)] + "\n  optional string team = 777;\n" + src[i+len(anchor):]
 }
 
 // userSources is sources() without the descriptor.proto override (the
@@ -431,6 +462,16 @@ func genCompileWLKinds(t *rapid.T, maxFiles int, kinds []int) CompileWL {
 		wl.Files = append(wl.Files, f)
 	}
 	switch rapid.IntRange(0, 11).Draw(t, "descriptorOverride") {
+	case 3, 4:
+		wl.DescriptorOverride = "custom"
+		used := false
+		for i := range wl.Files {
+			f := &wl.Files[i]
+			if strings.HasPrefix(f.Name, "f") && (rapid.IntRange(0, 1).Draw(t, "useTeam") == 0 || (!used && i == len(specs)-1)) {
+				f.Text += fmt.Sprintf("option team = \"t%d\";\n", i)
+				used = true
+			}
+		}
 	case 0, 1:
 		wl.DescriptorOverride = "valid"
 	case 2:
